@@ -39,6 +39,9 @@ func cloneRequest(req *http.Request) *http.Request {
 	req2 := new(http.Request)
 	*req2 = *req
 	req2.Header = req.Header.Clone()
+	if req2.Header == nil {
+		req2.Header = make(http.Header) // Clone of a nil header is nil; the caller sets fields on it
+	}
 	return req2
 }
 
